@@ -113,6 +113,7 @@ impl Check for C13 {
     }
 
     fn run(&self, p: &Params, tape: &mut Tape, ctx: &mut Ctx) {
+        crate::icd::ALLOW_NON_FINITE.with(|a| a.set(false));
         let small = p.section == 0;
         let mut r = tape.fork();
         let (bytes, rf) = if !small && tape.draw(40) == 39 {
